@@ -787,7 +787,21 @@ def run_case(contract, case, tier="quick", known=None, do_crosscheck=True, seed=
         except PathEnd:
             pass
         s = _tactic_solver(list(p0.axioms) + list(p0.pc), 5000)
-        res.vacuity["cover"] = str(s.check())
+        cover = str(s.check())
+        if cover == "unknown":
+            # nonlinear preconditions (volume curves) can need more than the first budget, above all on a loaded machine: the guard must not flip to
+            # "undetermined" for that reason - try again with other seeds and a larger budget, then with the hints as a guide to a witness
+            for attempt, extra in ((1, []), (2, list(cx0.hints))):
+                s2 = z3.Solver()
+                s2.set("timeout", budget.ms(40000))
+                s2.set("random_seed", 7919 * attempt)
+                for f in list(p0.axioms) + list(p0.pc) + extra:
+                    s2.add(f)
+                r2 = str(s2.check())
+                if r2 == "sat" or (r2 == "unsat" and not extra):
+                    cover = r2
+                    break
+        res.vacuity["cover"] = cover
         res.requires = [_short_term(c) for c in cx0.requires][:16]       # the case's preconditions, for the evidence
     except Exception as e:
         res.vacuity["cover"] = "error: %s" % e
